@@ -243,7 +243,7 @@ def main() -> int:
         if unlisted:
             return 1
         if agg["inconclusive"]:
-            for r in agg["inconclusive"]:
+            for r in agg["inconclusive"][:3]:
                 print(f"INCONCLUSIVE property={pid}: {r[:400]}")
             return 2
         if agg["evals"] == 0 or distinct < 2:
